@@ -7,6 +7,7 @@ import (
 	"bytes"
 	"crypto/sha256"
 	"crypto/sha512"
+	"crypto/x509"
 	"encoding/base64"
 	"fmt"
 	"net/http"
@@ -181,6 +182,52 @@ func Retrust(sp *saml.ServiceProvider, trust string) {
 	sp.IDPCertificate = n.IDPCertificate
 	sp.IDPCertificateFingerprint = n.IDPCertificateFingerprint
 	sp.IDPCertificateFingerprintAlgorithm = n.IDPCertificateFingerprintAlgorithm
+}
+
+// Noise sets public ServiceProvider options that have no bearing on how received messages are judged
+// (they shape what the SP sends, or its own metadata); bit i of n switches option i on.  Whatever n is,
+// a consuming API must reach the same verdict.
+func Noise(sp *saml.ServiceProvider, n uint64) {
+	yes := true
+	if n&1 != 0 {
+		sp.ForceAuthn = &yes
+	}
+	if n&2 != 0 {
+		sp.SignatureMethod = "http://www.w3.org/2001/04/xmldsig-more#rsa-sha256"
+	}
+	if n&4 != 0 {
+		sp.AuthnNameIDFormat = saml.EmailAddressNameIDFormat
+	}
+	if n&8 != 0 {
+		sp.RequestedAuthnContext = &saml.RequestedAuthnContext{Comparison: "exact", AuthnContextClassRef: "urn:oasis:names:tc:SAML:2.0:ac:classes:PasswordProtectedTransport"}
+	}
+	if n&16 != 0 {
+		sp.LogoutBindings = []string{saml.HTTPPostBinding}
+	}
+	if n&32 != 0 {
+		sp.DefaultRedirectURI = "/after-login"
+	}
+	if n&64 != 0 {
+		sp.MetadataValidDuration = time.Hour
+	}
+	if n&128 != 0 {
+		sp.Intermediates = []*x509.Certificate{fix.Get("idp2").Cert, fix.Get("attacker").Cert}
+	}
+}
+
+// WarmUp lets sp process one ordinary, valid, Response-signed message of its own (request "id-warm") at
+// time now, the way a long-running SP has served other logins before the one under judgement.
+func WarmUp(sp *saml.ServiceProvider, now time.Time) Outcome {
+	r := Baseline(now, "id-warm", "")
+	r.ID = "id-warm-resp"
+	r.Assertions[0].ID = "id-warm-assert"
+	r.Assertions[0].NameID = forge.S("warm-up-user@idp.example.com")
+	r.Sign = &forge.SignSpec{Key: "idp"}
+	el, err := forge.BuildResponse(&r)
+	if err != nil {
+		return Outcome{Err: err}
+	}
+	return ParseXML(sp, forge.Bytes(el), []string{"id-warm"}, SPACS)
 }
 
 func Baseline(now time.Time, reqID string, audience string) forge.ResponseSpec {
